@@ -717,6 +717,15 @@ def normalise(t):
                 flat2.append(x)
         if flat2 != items:
             return normalise(("seq",) + tuple(flat2))
+        # let v = match self.current_token {p => a, ..}; rest   ==   match self.current_token {p => {let v = a; rest}, ..}
+        # (commuting conversion, for a short continuation after the token dispatch; arms that return keep their body)
+        for i, x in enumerate(items):
+            if _is(x, "let") and len(x) == 3 and _is(x[2], "match") and x[2][1] == ("field", ("param", "self"), "current_token") and all(len(a) == 2 for a in x[2][2:]):
+                rest = tuple(items[i + 1:])
+                if rest and sum(term_size(r_) for r_ in rest) <= 40:
+                    arms = tuple((a[0], a[1] if _always_returns(a[1]) else normalise(("seq", ("let", x[1], a[1])) + rest)) for a in x[2][2:])
+                    new_items = list(items[:i]) + [("match", x[2][1]) + arms]
+                    return normalise(("seq",) + tuple(new_items)) if len(new_items) > 1 else new_items[0]
         # let x = y (y a local that is not used afterwards): x is y
         for i, x in enumerate(items):
             if _is(x, "let") and len(x) == 3 and _is(x[2], "var") and isinstance(x[2][1], str) and re.match(r"^[mv]\d+$", x[2][1]) and isinstance(x[1], str):
